@@ -218,4 +218,83 @@ theorem othersImageX_eq (i : Bool) (ops : List (Bool × XOp)) : ∀ (I : List Qu
       simp only [List.map_cons, List.foldl_cons]
       exact ih _
 
+/-! ### graph-level operations: what their expansion into wrapper calls means on a set of quads -/
+
+def GOp.wellNamed : GOp → Bool
+  | .store o => o.wellNamed
+  | .set q => truthy q.graph
+  | .removeContext g => truthy g
+  | _ => true
+
+def GCmd.wellNamed : GCmd → Bool
+  | .op o => o.wellNamed
+  | _ => true
+
+theorem expand_wellNamed (g : GOp) (h : g.wellNamed = true) : ∀ o ∈ g.expand, o.wellNamed = true := by
+  intro o ho
+  cases g with
+  | store o' => simp only [GOp.expand, List.mem_singleton] at ho; subst ho; exact h
+  | addN qs =>
+    simp only [GOp.expand, List.mem_map] at ho
+    obtain ⟨q, _, rfl⟩ := ho; rfl
+  | set q =>
+    simp only [GOp.expand, List.mem_cons, List.not_mem_nil, or_false] at ho
+    rcases ho with rfl | rfl
+    · simp only [GOp.wellNamed] at h
+      simp only [XOp.wellNamed, Pat.wellNamed, Pat.ground?, Option.isSome_none, Bool.false_or]
+      exact h
+    · rfl
+  | isub qs =>
+    simp only [GOp.expand, List.mem_map] at ho
+    obtain ⟨q, _, rfl⟩ := ho
+    exact pat_wellNamed q
+  | removeContext g' =>
+    simp only [GOp.expand, List.mem_singleton] at ho
+    subst ho
+    simp only [GOp.wellNamed] at h
+    simp only [XOp.wellNamed, Pat.wellNamed, Pat.ground?, Option.isSome_none, Bool.false_or]
+    exact h
+  | addForeign q extra =>
+    simp only [GOp.expand, List.mem_append, List.mem_map, List.mem_singleton] at ho
+    rcases ho with ⟨t, _, rfl⟩ | rfl <;> rfl
+
+theorem gcmd_expand_wellNamed (c : GCmd) (h : c.wellNamed = true) : ∀ x ∈ c.expand, x.wellNamed = true := by
+  intro x hx
+  cases c with
+  | op g =>
+    simp only [GCmd.expand, List.mem_map] at hx
+    obtain ⟨o, ho, rfl⟩ := hx
+    exact expand_wellNamed g h o ho
+  | commit => simp only [GCmd.expand, List.mem_singleton] at hx; subst hx; rfl
+  | rollback => simp only [GCmd.expand, List.mem_singleton] at hx; subst hx; rfl
+
+theorem mem_fold_adds (qs : List Quad) : ∀ (c : List Quad) (x : Quad),
+    x ∈ (qs.map XOp.add).foldl curStepX c ↔ x ∈ qs ∨ x ∈ c := by
+  induction qs with
+  | nil => intro c x; simp
+  | cons q qs ih =>
+    intro c x
+    simp only [List.map_cons, List.foldl_cons, ih, curStepX, mem_sinsert, List.mem_cons]
+    constructor
+    · rintro (h | h | h)
+      · exact Or.inl (Or.inr h)
+      · exact Or.inl (Or.inl h)
+      · exact Or.inr h
+    · rintro ((h | h) | h)
+      · exact Or.inr (Or.inl h)
+      · exact Or.inl h
+      · exact Or.inr (Or.inr h)
+
+theorem mem_fold_removes (qs : List Quad) : ∀ (c : List Quad) (x : Quad),
+    x ∈ (qs.map (fun q => XOp.remove q.pat)).foldl curStepX c ↔ x ∈ c ∧ x ∉ qs := by
+  induction qs with
+  | nil => intro c x; simp
+  | cons q qs ih =>
+    intro c x
+    simp only [List.map_cons, List.foldl_cons, ih, curStepX, List.mem_cons, not_or, ← sremove_eq_filter,
+      mem_sremove]
+    constructor
+    · rintro ⟨⟨h1, h2⟩, h3⟩; exact ⟨h2, h1, h3⟩
+    · rintro ⟨h2, h1, h3⟩; exact ⟨⟨h1, h2⟩, h3⟩
+
 end RV.C18
